@@ -268,13 +268,41 @@ def cli_plumbing(chk: Check, rule: str, table: list[tuple[str, str, str]], doc: 
 
 
 # ------------------------------------------------------------------------------------ MEMO-KEY completeness
+_CHAIN_PROJECT: list = [None]  # set by the rules that want helper projection
+
+
 def _chains(fn: FuncInfo, expr: ast.AST, roots: set[str], depth: int = 0, seen: frozenset[str] = frozenset()) -> set[str]:
     """Dotted chains rooted at a parameter that `expr` depends on, following local assignments (def-use closure)."""
     out: set[str] = set()
     consumed: set[int] = set()
+    P = _CHAIN_PROJECT[0]
     for n in ast.walk(expr):
         if id(n) in consumed:
             continue
+        # projection through a repo helper: `_config_cache_key(generation_config)` depends on exactly the attributes of
+        # its parameter that the helper reads, not on the whole object
+        if P is not None and isinstance(n, ast.Call) and not n.keywords and n.args and all(isinstance(a, ast.Name) for a in n.args):
+            r = P.resolve_call(fn, n)
+            if r and r[0] == "func" and r[1].cls is None:
+                callee = r[1]
+                cps = params_of(callee.node)
+                body = [s_ for s_ in callee.node.body if not (isinstance(s_, ast.Expr) and isinstance(s_.value, ast.Constant))]
+                if len(body) == 1 and isinstance(body[0], ast.Return) and body[0].value is not None and len(cps) >= len(n.args):
+                    inner = _chains(callee, body[0].value, set(cps), depth + 1, seen)
+                    amap = {cp: a.id for cp, a in zip(cps, n.args)}  # type: ignore[attr-defined]
+                    projected = set()
+                    for ch in inner:
+                        h, _, rest_ = ch.partition(".")
+                        if h in amap and rest_:
+                            projected.add(f"{amap[h]}.{rest_}")
+                        elif h in amap:
+                            projected.add(amap[h])
+                    # resolve the argument names themselves (they may be locals aliasing parameters)
+                    for pc in projected:
+                        out |= _chains(fn, ast.parse(pc, mode="eval").body, roots, depth + 1, seen)
+                    for sub in ast.walk(n):
+                        consumed.add(id(sub))
+                    continue
         d = dotted(n) if isinstance(n, (ast.Attribute, ast.Name)) else None
         if d is None:
             continue
@@ -308,6 +336,7 @@ def memo_key_rule(chk: Check, rule: str, fns: list[FuncInfo], suppress: dict[tup
     """For every explicit cache store `C[...][key] = value` / `cache.insert_x(key, value)` in `fns`: every parameter
     (attribute chain) the cached value is computed from must be part of the key."""
     chk.rule(rule, doc or "MEMO-KEY: whatever a cached value is computed from (parameters, configuration fields) is part of its cache key", floor=1)
+    _CHAIN_PROJECT[0] = chk.project
     suppress = suppress or {}
     n = 0
     for fn in fns:
